@@ -982,7 +982,14 @@ fn apply_binary_operation(
                             }
                         },
                         BinaryOp::Mod => {
-                            Ok(Value::Int(a % b))
+                            if *b == 0 {
+                                Err(new_int_overflow(a, b))
+                            } else {
+                                // `wrapping_rem` only differs from `%` for
+                                // `i64::MIN % -1`, where the exact result
+                                // (`0`) is returned instead of panicking.
+                                Ok(Value::Int(a.wrapping_rem(*b)))
+                            }
                         },
                         _ => {
                             panic!("unexpected operation");
